@@ -456,10 +456,17 @@ def semantic(spec, out):
 
                 bad_type = str(uuid.UUID(int=(bvhdx.GUID_VHDX_LOCATOR_TYPE.int ^ (1 << (n % 128)))))
                 bad, _l, _m = bvhdx.build(dict(child, name=os.path.join(d, "child.vhdx"), locator_type=bad_type))
-            else:
+            elif n % 3 == 0:
                 os.remove(os.path.join(d, "parent.vhdx"))
                 bad = good
                 bad.seek(0)
+            else:
+                # the parent is there, but the differencing image arrives as a file object without a (usable) name: nothing
+                # says where to look, so the parent is as missing as before
+                bad, _l, _m = bvhdx.build(dict(child, name=None))
+                if n % 3 == 2:
+                    bad.name = ""
+                out.cls("nameless-handle")
             v, err = lib(VHDX, bad)
             if v is not None and getattr(v, "parent", None) is not None:
                 v.parent.fh.close()
@@ -527,8 +534,13 @@ def semantic(spec, out):
         good, _k, _i = benv.keystore_text({"key_id": bytes(16).hex(), "data1": "aa", "data2": "bb"})
         ctl = None  # the valid keystore costs 100k PBKDF2 rounds; covered by C16
         mode = spec["name"].strip(' "')  # the dictionary syntax strips spaces and quotes around a value
+        if n % 5 == 0:
+            # a value that continues, behind a character some text APIs take for a line boundary (the format's lines end at LF),
+            # with what would be an accepted assignment
+            mode = (mode or "TPM") + "\x0c\x0b\x1c\x1d\x1e\x85\u2028\u2029"[(n // 5) % 8] + 'mode = "NONE'
+            out.cls("mode-with-line-boundary-character")
         bad = good.replace('mode = "NONE"', f'mode = "{mode}"') if mode not in ("NONE",) and n % 4 else good.replace('mode = "NONE"\n', "")
-        if 'mode = "NONE"' in bad:
+        if bad.startswith('mode = "NONE"') or '\nmode = "NONE"' in bad:
             bad = good.replace('mode = "NONE"\n', "")
         err = lib(KeyStore.from_text, bad)[1]
     elif name.startswith("keysafe."):
@@ -560,10 +572,18 @@ def keysafe(spec, out):
         bad = text.replace("vmware:key/list/", ident + "/list/", 1)
     elif name == "keysafe.locator_kind":
         kind = spec["text"] if spec["text"] not in ("list", "pair", "phrase") else "rawkey"
-        where = spec["n"] % 3
-        old = ["/list/(", "(pair/(", "(phrase/"][where]
-        new = [f"/{kind}/(", f"({kind}/(", f"({kind}/"][where]
-        bad = text.replace(old, new, 1)
+        where = spec["n"] % 5
+        if where >= 3:
+            # a list that holds a usable pair and, after or before it, a second member of an unknown kind
+            i, j = text.index("/list/(") + len("/list/("), text.index(')"', text.index("/list/("))
+            member = text[i:j]
+            other = member.replace("pair/(phrase/", f"pair/({kind}/", 1) if spec["n"] % 2 else member.replace("pair/(", f"{kind}/(", 1)
+            bad = text[:i] + (member + "," + other if where == 3 else other + "," + member) + text[j:]
+            out.cls("mixed-locator-list")
+        else:
+            old = ["/list/(", "(pair/(", "(phrase/"][where]
+            new = [f"/{kind}/(", f"({kind}/(", f"({kind}/"][where]
+            bad = text.replace(old, new, 1)
     else:
         s = copy.deepcopy(VMX_SPEC)
         which = spec["n"] % 3
